@@ -13,11 +13,12 @@ use proptest::prelude::*;
 use serde::{Deserialize, Serialize};
 use std::rc::Rc;
 
-pub const RULE: &str = "(1) every built-in (all names of get_built_in_function_idents() except print / time_now) applied to every argument tuple of a boundary pool (NaN, +-inf, +-0, 2^53, +-1e30, 1e15, fractions, negatives; empty / ASCII / non-ASCII / numeric-looking / unit strings; empty, NaN-containing, nested, string and 30-element mixed lists; records; well- and ill-typed lambdas of arity 0/1/2/rest; built-ins as values): exhaustive for 0, 1 and 2 arguments, a 14-value sub-pool for 3 arguments, random tuples for 3-5 arguments; (2) grammar-generated typed programs with ill-typed noise and JSON inputs incl. __blots_function objects whose source is generated, mutated, blank or garbage; (2b) sessions of separately parsed and evaluated texts sharing heap and bindings (REPL / wasm style) in which long, late-failing functions (defined in one text or arriving as JSON inputs, with non-ASCII text before the failing position) are called from short later texts; (2c) inputs maps in the serde form of SerializableValue (how the wasm driver receives inputs) with function bodies that are blank, comments, statements, garbage or late-failing, converted with to_value and called; (3b) each nesting construct (curried lambdas, applied lambdas, conditionals, lists, records, calls, parenthesised operators, do-blocks, via-lambdas, commented lists under lambdas, negations) nested 1..48 deep around a short and an over-long payload; (3d) every parameter-list shape (0-4 required / optional parameters in any order, with and without a rest parameter) called with 0-6 arguments directly, through spreads and by every higher-order form; (3c) failing one-line programs of every length from a few bytes to 6 KB (error reports of every size); (3) token- and byte-level mutants of the repository's examples, benches and README code blocks; (4) random UTF-8 weighted to the grammar's alphabet, up to 4 KiB, bracket depth <= 64. Every stage runs on each: get_pairs, AST conversion with and without comments, evaluation of every statement, validate / serialise / stringify of every result and binding, Display of every error plus span-inside-own-source, format_expr at four widths, the WASM formatting driver, expr_to_source, and for 2% the real CLI (file, -i). Violation = panic, abort, signal, exit 101, or an error span outside its text. Non-trivial = the case reached evaluation or is an enumerated built-in call; distinct by input text.";
+pub const RULE: &str = "(1) every built-in (all names of get_built_in_function_idents() except print / time_now) applied to every argument tuple of a boundary pool (NaN, +-inf, +-0, 2^53, +-1e30, 1e15, fractions, negatives; empty / ASCII / non-ASCII / numeric-looking / unit strings; empty, NaN-containing, nested, string and 30-element mixed lists; records; well- and ill-typed lambdas of arity 0/1/2/rest; built-ins as values): exhaustive for 0, 1 and 2 arguments, a 14-value sub-pool for 3 arguments, random tuples for 3-5 arguments; (2) grammar-generated typed programs with ill-typed noise and JSON inputs incl. __blots_function objects whose source is generated, mutated, blank or garbage; (2b) sessions of separately parsed and evaluated texts sharing heap and bindings (REPL / wasm style) in which long, late-failing functions (defined in one text or arriving as JSON inputs, with non-ASCII text before the failing position) are called from short later texts; (2c) inputs maps in the serde form of SerializableValue (how the wasm driver receives inputs) with function bodies that are blank, comments, statements, garbage or late-failing, converted with to_value and called; (3b) each nesting construct (curried lambdas, applied lambdas, conditionals, lists, records, calls, parenthesised operators, do-blocks, via-lambdas, commented lists under lambdas, negations) nested 1..48 deep around a short and an over-long payload; (3d) every parameter-list shape (0-4 required / optional parameters in any order, with and without a rest parameter) called with 0-6 arguments directly, through spreads and by every higher-order form; (3e) sixteen nesting constructs (lambdas, calls, assignments, conditionals, lists, records, do-blocks, pipelines under one another) 1..64 levels deep, left unfinished and finished: the parser must accept or reject each within 5 000 000 rule calls (pest's call limit used as a deterministic step counter; the repaired grammar needs a few thousand); (3c) failing one-line programs of every length from a few bytes to 6 KB (error reports of every size); (3) token- and byte-level mutants of the repository's examples, benches and README code blocks; (4) random UTF-8 weighted to the grammar's alphabet, up to 4 KiB, bracket depth <= 64. Every stage runs on each: get_pairs, AST conversion with and without comments, evaluation of every statement, validate / serialise / stringify of every result and binding, Display of every error plus span-inside-own-source, format_expr at four widths, the WASM formatting driver, expr_to_source, and for 2% the real CLI (file, -i). Violation = panic, abort, signal, exit 101, or an error span outside its text. Non-trivial = the case reached evaluation or is an enumerated built-in call; distinct by input text.";
 pub const ASSUMPTIONS: &[&str] = &[
     "resource exhaustion is not a crash: range spans in (2*10^6, 2^32], error-swallowing recursive sort_by callbacks and unbounded recursion through slow paths are excluded by construction or counted as inconclusive (allocation-failure marker, per-case watchdog)",
     "the WASM evaluate glue cannot run natively (JsValue); everything it calls in blots-core is covered, including the conversion of serde-deserialised inputs (2c)",
     "in-process crashes are caught with catch_unwind; aborts are attributed through the worker crash journal",
+    "\"finishes\" is read with a work bound for the parser: a text of a few hundred bytes within the nesting bound must be accepted or rejected within 5 000 000 parser rule calls (counted by pest's call limit, not by a clock); wall-clock time-outs stay inconclusive",
 ];
 
 #[derive(Clone, Debug, Serialize, Deserialize)]
@@ -31,7 +32,33 @@ pub enum Case {
     /// an inputs map in the serde form of SerializableValue - how the wasm driver receives its
     /// inputs (serde_wasm_bindgen) - converted with to_value and used by a program
     SerdeInputs { doc: String, text: String },
+    /// unfinished (or finished) text of `depth` nested units: accepting or rejecting it must
+    /// stay within a budget of parser rule calls (a deterministic step count, not a clock)
+    ParseWork { unit: u8, depth: u8, closed: bool },
 }
+
+/// (opening text of one nesting level, text that closes one level)
+pub const PARSE_UNITS: &[(&str, &str)] = &[
+    ("x => g(a + ", ")"),
+    ("g(x => ", ")"),
+    ("x => g(a, ", ")"),
+    ("t = g(", ")"),
+    ("if a then b else g(", ")"),
+    ("x => [g(", ")]"),
+    ("x => {k: g(", ")}"),
+    ("(x => g(", "))"),
+    ("x => g(...", ")"),
+    ("x => do { return g(", ") }"),
+    ("[x => ", "]"),
+    ("g(1)(x => ", ")"),
+    ("a via x => g(", ")"),
+    ("not x => g(", ")"),
+    ("x => a[g(", ")]"),
+    ("x => a ?? g(", ")"),
+];
+/// rule calls allowed for a text of a few hundred bytes (the repaired grammar needs a few thousand)
+pub const PARSE_CALL_BUDGET: usize = 5_000_000;
+
 
 pub struct Pipeline;
 
@@ -353,6 +380,48 @@ impl Check for Pipeline {
                         Err(err) => exercise_error(&err, &src),
                     }
                 })
+            }
+            Case::ParseWork { unit, depth, closed } => {
+                let (open, close) = PARSE_UNITS[*unit as usize % PARSE_UNITS.len()];
+                let mut text = String::from("f = ");
+                for _ in 0..*depth {
+                    text.push_str(open);
+                }
+                text.push('1');
+                if *closed {
+                    for _ in 0..*depth {
+                        text.push_str(close);
+                    }
+                }
+                ctx.label(if *closed { "parse-work:finished-text" } else { "parse-work:unfinished-text" });
+                ctx.nontrivial(hash_str(&text));
+                pest::set_call_limit(std::num::NonZeroUsize::new(PARSE_CALL_BUDGET));
+                let verdict = match blots_core::parser::get_pairs(&text) {
+                    Ok(_) => Ok(true),
+                    Err(e) if e.to_string().contains("call limit reached") => Err(()),
+                    Err(_) => Ok(false),
+                };
+                pest::set_call_limit(None);
+                match verdict {
+                    Err(()) => fail!(
+                        format!("parse-work:budget-exceeded:{}:{}", open.trim(), if *closed { "finished" } else { "unfinished" }),
+                        "the parser needs more than {} rule calls to {} a {}-byte text: {} levels of `{}`{}\n{}",
+                        PARSE_CALL_BUDGET,
+                        if *closed { "accept" } else { "reject" },
+                        text.len(),
+                        depth,
+                        open,
+                        if *closed { " (closed)" } else { " left open" },
+                        text.chars().take(300).collect::<String>()
+                    ),
+                    Ok(parsed) => {
+                        if *closed && !parsed && *depth <= 2 {
+                            // the units are meant to be valid when closed (deeper ones may exceed other limits)
+                            ctx.label("parse-work:closed-unit-rejected");
+                        }
+                        Ok(())
+                    }
+                }
             }
             Case::SerdeInputs { doc, text } => {
                 ctx.label("serde-inputs");
@@ -863,6 +932,15 @@ pub fn run(ctx: &mut Ctx) {
         }
     }
     ctx.run_enum(&Pipeline, arity.into_iter(), false);
+    // (3e) nested constructs left unfinished: the work to reject them must not explode with depth
+    let mut work = Vec::new();
+    for unit in 0..PARSE_UNITS.len() as u8 {
+        for depth in [1u8, 2, 8, 16, 24, 32, 48, 64] {
+            work.push(Case::ParseWork { unit, depth, closed: false });
+            work.push(Case::ParseWork { unit, depth, closed: true });
+        }
+    }
+    ctx.run_enum(&Pipeline, work.into_iter(), false);
     // (4) raw random text
     ctx.run_random(&Pipeline, prop::collection::vec(any::<u16>(), 0..900).prop_map(|t| raw_text(&t)), ctx.tier.pick(20_000, 400_000));
 }
